@@ -149,7 +149,107 @@ fn evaluate(thread: usize, iters: usize, flats: &[FlatEx<f64>], deeps: &[DeepEx<
     out
 }
 
+/// integer operators; the division panics on a zero divisor like the primitive does
+#[derive(Clone, Debug, PartialEq, Eq, PartialOrd, Ord)]
+struct IntOps;
+impl MakeOperators<i64> for IntOps {
+    fn make<'a>() -> Vec<Operator<'a, i64>> {
+        vec![
+            Operator::make_bin("+", BinOp { apply: |a, b| a.wrapping_add(b), prio: 0, is_commutative: true }),
+            Operator::make_bin_unary("-", BinOp { apply: |a, b| a.wrapping_sub(b), prio: 1, is_commutative: false }, |a: i64| a.wrapping_neg()),
+            Operator::make_bin("*", BinOp { apply: |a, b| a.wrapping_mul(b), prio: 2, is_commutative: true }),
+            Operator::make_bin(
+                "/",
+                BinOp {
+                    apply: |a, b| {
+                        if b == 0 {
+                            panic!("C20W-EXPECTED integer division by zero in a user-defined operator")
+                        }
+                        a.wrapping_div(b)
+                    },
+                    prio: 3,
+                    is_commutative: false,
+                },
+            ),
+        ]
+    }
+}
+
+/// Texts whose acceptance could depend on per-process state (literal spellings at the edge of the
+/// grammar) through every data type: the outcome (Ok + value, or Err) is part of the digest that
+/// must be the same in every process, whatever thread and data type came first.
+fn probes() -> String {
+    let mut out = String::new();
+    for t in ["2e3*x", "x+1.5e-3", "7E2", "1.5*x", ".5+x", "2.*x", "1e", "0x10", "1_000*x", "x+١"] {
+        let f = FlatEx::<f64>::parse(t).and_then(|e| e.eval(&vec![3.0; e.var_names().len()]));
+        let d = DeepEx::<f64>::parse(t).and_then(|e| e.eval(&vec![3.0; e.var_names().len()]));
+        let g = FlatEx::<f32>::parse(t).and_then(|e| e.eval(&vec![3.0; e.var_names().len()]));
+        let v = exmex::parse_val::<i32, f64>(t).and_then(|e| e.eval(&vec![Val::Int(3); e.var_names().len()]));
+        let i = FlatEx::<i64, IntOps>::parse(t).and_then(|e| e.eval(&vec![3; e.var_names().len()]));
+        out.push_str(&format!("{t}: {:?} {:?} {:?} {:?} {:?}\n", f.ok(), d.ok(), g.ok(), v.ok().map(|v| format!("{v:?}")), i.ok()));
+    }
+    out
+}
+
+/// An evaluation that panics inside a user-defined operator is part of an evaluation history
+/// like any other: afterwards the shared expression gives what it gave before, on every thread.
+fn panic_history(threads: usize) -> Vec<String> {
+    let mut problems = vec![];
+    for terms in [4usize, 20, 40] {
+        let mut text = String::from("a/b");
+        for k in 0..terms {
+            text.push_str(&format!("+a*x-{}", k + 1));
+        }
+        let e = match FlatEx::<i64, IntOps>::parse(&text) {
+            Ok(e) => Arc::new(e),
+            Err(err) => {
+                problems.push(format!("integer expression with {terms} terms rejected: {err:?}"));
+                continue;
+            }
+        };
+        let want = |a: i64, b: i64, x: i64| a / b + (0..terms as i64).map(|k| a * x - (k + 1)).sum::<i64>();
+        let good = [6i64, 3, 2];
+        let before = e.eval(&good);
+        if before != Ok(want(6, 3, 2)) {
+            problems.push(format!("integer expression with {terms} terms evaluates to {before:?}, closed form {}", want(6, 3, 2)));
+        }
+        let dump = format!("{e:?}");
+        // the failing evaluation, on another thread, which survives it
+        let e2 = e.clone();
+        let failed = std::thread::spawn(move || std::panic::catch_unwind(std::panic::AssertUnwindSafe(|| e2.eval(&[6, 0, 2]))).is_err()).join().unwrap_or(false);
+        if !failed {
+            problems.push("the division by zero in the user-defined operator did not panic".into());
+        }
+        let handles: Vec<_> = (0..threads.min(4))
+            .map(|t| {
+                let e = e.clone();
+                std::thread::spawn(move || std::panic::catch_unwind(std::panic::AssertUnwindSafe(|| e.eval(&[6 + t as i64, 3, 2]))))
+            })
+            .collect();
+        for (t, h) in handles.into_iter().enumerate() {
+            match h.join() {
+                Ok(Ok(Ok(v))) if v == want(6 + t as i64, 3, 2) => {}
+                other => problems.push(format!("after an evaluation that panicked in a user-defined operator, thread {t} gets {:?} from the shared expression ({terms} terms), closed form {}", other.map(|r| r.map_err(|_| "panic")), want(6 + t as i64, 3, 2))),
+            }
+        }
+        if dump != format!("{e:?}") {
+            problems.push(format!("the Debug dump of the shared integer expression ({terms} terms) changed after a panicking evaluation"));
+        }
+    }
+    problems.truncate(4);
+    problems
+}
+
 fn main() {
+    // panics that the workload provokes on purpose are not reported on stderr
+    let default_hook = std::panic::take_hook();
+    std::panic::set_hook(Box::new(move |info| {
+        let expected = info.payload().downcast_ref::<&str>().map(|m| m.starts_with("C20W-EXPECTED")).unwrap_or(false)
+            || info.payload().downcast_ref::<String>().map(|m| m.starts_with("C20W-EXPECTED")).unwrap_or(false);
+        if !expected {
+            default_hook(info);
+        }
+    }));
     let args: Vec<String> = std::env::args().collect();
     let threads: usize = args.get(1).and_then(|s| s.parse().ok()).unwrap_or(8);
     let iters: usize = args.get(2).and_then(|s| s.parse().ok()).unwrap_or(20);
@@ -158,19 +258,22 @@ fn main() {
     // non-deterministic on purpose (Miri): only the interpreter's own verdict (UB, data race) counts
     let lenient = args.get(4).map(|s| s == "lenient").unwrap_or(false);
     // the Horner text is built here: 1+x*(1+x*( ... (1+x) ... )) nested 48 levels deep
-    let horner: &'static str = {
-        let mut h = String::new();
-        for _ in 0..47 {
-            h.push_str("1+x*(");
-        }
-        h.push_str("1+x");
-        for _ in 0..47 {
-            h.push(')');
-        }
-        Box::leak(h.into_boxed_str())
-    };
-    let all_texts: Vec<&'static str> = TEXTS.iter().map(|t| if *t == "HORNER" { horner } else { *t }).collect();
-    let all_texts: &'static [&'static str] = Box::leak(all_texts.into_boxed_slice());
+    static HORNER: std::sync::OnceLock<String> = std::sync::OnceLock::new();
+    static ALL_TEXTS: std::sync::OnceLock<Vec<&'static str>> = std::sync::OnceLock::new();
+    let horner: &'static str = HORNER
+        .get_or_init(|| {
+            let mut h = String::new();
+            for _ in 0..47 {
+                h.push_str("1+x*(");
+            }
+            h.push_str("1+x");
+            for _ in 0..47 {
+                h.push(')');
+            }
+            h
+        })
+        .as_str();
+    let all_texts: &'static [&'static str] = ALL_TEXTS.get_or_init(|| TEXTS.iter().map(|t| if *t == "HORNER" { horner } else { *t }).collect()).as_slice();
     let texts = &all_texts[..ntexts];
     let val_texts = if lenient { &VAL_TEXTS[..0] } else { &VAL_TEXTS[..ntexts.min(VAL_TEXTS.len())] };
 
@@ -183,6 +286,20 @@ fn main() {
             let (barrier, ticket, order) = (barrier.clone(), ticket.clone(), order.clone());
             std::thread::Builder::new().stack_size(256 << 20).spawn(move || {
                 barrier.wait();
+                // the very first parse of a thread uses a different data type / entry point from
+                // thread to thread, so that any first-use initialisation is raced by all of them
+                match t % 4 {
+                    1 => {
+                        let _ = exmex::parse_val::<i32, f64>("(x + 2) * 3 - y / 2.0");
+                    }
+                    2 => {
+                        let _ = DeepEx::<f64>::parse("1.5*x+2");
+                    }
+                    3 => {
+                        let _ = FlatEx::<i64, IntOps>::parse("2*x+3");
+                    }
+                    _ => {}
+                }
                 let first = FlatEx::<f64>::parse(texts[t % texts.len()]).expect("parse");
                 let my_ticket = ticket.fetch_add(1, Ordering::SeqCst);
                 order.lock().unwrap()[my_ticket] = t;
@@ -272,6 +389,13 @@ fn main() {
     }
     problems.extend(custom_problems);
     problems.extend(storm_problems);
+    let probe_outcomes = if lenient { String::new() } else { probes() };
+    if !lenient {
+        problems.extend(panic_history(threads));
+        if probes() != probe_outcomes {
+            problems.push("the same texts parsed twice in a row give different outcomes".into());
+        }
+    }
     // closed forms: also a sequential run cannot be trusted if global state was poisoned
     for (i, f) in sflats.iter().enumerate() {
         let n = f.var_names().len();
@@ -311,6 +435,9 @@ fn main() {
     }
     if snap != format!("{:?}", sflats) {
         problems.push("a history of evaluations changed the expression".into());
+    }
+    for b in probe_outcomes.bytes() {
+        digest = (digest ^ b as u64).wrapping_mul(1099511628211);
     }
     let ord = order.lock().unwrap().iter().map(|t| t.to_string()).collect::<Vec<_>>().join(",");
     println!("ORDER {ord}");
